@@ -13,6 +13,15 @@ type PropCfg struct {
 	Bounded   []BoundedPart
 	re, obre  *regexp.Regexp
 	Mirrors   []Mirror
+	match     func(string) bool // overrides re (selftest: property functions restricted to the mutated ones)
+}
+
+// selects: the contract key (function, "lemma <name>", "directives") belongs to this run.
+func (c *PropCfg) selects(key string) bool {
+	if c.match != nil {
+		return c.match(key)
+	}
+	return c.re == nil || c.re.MatchString(key)
 }
 
 // Mirror: package Pkg contains byte-identical copies of Files of package Of. While that holds
@@ -72,6 +81,13 @@ var props = []*PropCfg{
 }
 
 func init() {
+	props = append(props, &PropCfg{
+		ID:    "C39",
+		Pkgs:  []string{"./pkg/rpc"},
+		Funcs: `^(\(\*workerPool\)\.(Get|Put|GC|gcLocked|Close|Created)|directives)$`,
+		Scope: "worker limit: workerPool is verified as a monitor (all schedules): created <= create holds whenever its lock is free and every store to created respects it; request memory: the server applies only TryAcquire/Acquire/Release/Observe to reqMemSem (package-wide SSA scan), so the semaphore's no-over-admission guarantee (C42) bounds the accounted request memory by the limit",
+		Unverified: []string{"that each worker goroutine runs one handler at a time and that synchronous handlers are outside the worker limit by design", "that every request-memory acquisition is released on every teardown path", "that acquireRequestSema accounts exactly the bytes of the request (arguments are passed through unchanged: by inspection, not proved)"},
+	})
 	props = append(props, &PropCfg{
 		ID:    "C42",
 		Pkgs:  []string{"./internal/vkgo/pkg/semaphore"},
